@@ -78,6 +78,9 @@ def check_cases(cases: list[dict], rep: Report, known: dict) -> None:
         rep.corr_checked += 1
         if mvars != vs:
             rep.corr_break(f"variable set differs from the model: {vs} vs {mvars}", dict(c))
+        bad = wrong_variable_sets(e)
+        if bad:
+            rep.violation(f"a sub-expression reports variables it does not mention (or misses some): {bad}", dict(c))
         accept = len(vs) <= 1
         model_accept = b[i_single].startswith("ok")
         if accept != model_accept:
@@ -99,6 +102,27 @@ def check_cases(cases: list[dict], rep: Report, known: dict) -> None:
             if len(rep.samples) < 6 and not nc.info["complete"]:
                 rep.sample({"e": nc.info["e"][:150], "p": nc.info["p"], "supplied": nc.info["supplied"], "impl": nc.info["impl"]})
     names(rep)
+
+
+def occurring(e) -> set:
+    if wire.cls(e) == "Variable":
+        return {e.name}
+    out = set()
+    for c in wire.children(e):
+        out |= occurring(c)
+    return out
+
+
+def wrong_variable_sets(e) -> str | None:
+    """every node's variable-name set is exactly the set of variables occurring below it - checked
+    after all the queries of the case ran on the object"""
+    if set(e._variable_names) != occurring(e):
+        return f"{wire.cls(e)} reports {sorted(e._variable_names)}, mentions {sorted(occurring(e))}"
+    for c in wire.children(e):
+        w = wrong_variable_sets(c)
+        if w:
+            return w
+    return None
 
 
 def names(rep: Report) -> None:
